@@ -3,10 +3,10 @@ from __future__ import annotations
 
 import ast
 
-from ..cfg import CFG
+from ..cfg import CFG, fact_holds_at
 from ..consteval import ConstEval
 from ..core import AnalysisError, ClassInfo, FuncInfo, own_nodes, parent, short, unparse
-from ..rules import dsp, lint, shape
+from ..rules import dsp, lint, match, shape
 from . import common
 
 EXPLANATION = (
@@ -168,13 +168,20 @@ def check_types(ctx):
     uses_ext = eparam in {n.id for n in ast.walk(r.value) if isinstance(n, ast.Name)}
     uses_type = tparam in {n.id for n in ast.walk(r.value) if isinstance(n, ast.Name)}
     nid = cfg.node_of(r)
-    guarded = any(cfg.nodes[d].kind == "test" and isinstance(cfg.nodes[d].ast, ast.If) and unparse(cfg.nodes[d].ast.test) in (f"{tparam} is None", f"{tparam} == None") and
-                  any(x is r for s in cfg.nodes[d].ast.body for x in ast.walk(s)) for d in dom.get(nid, ()))
+
+    def type_is_none(test, pol):
+      parts = test.values if isinstance(test, ast.BoolOp) and isinstance(test.op, ast.And) and pol else [test]
+      for part in parts:
+        isn = match.is_none_test(part, lambda e: isinstance(e, ast.Name) and e.id == tparam)
+        if isn is not None and isn == pol:
+          return True
+      return False
+    guarded = fact_holds_at(cfg, nid, type_is_none)
     if uses_ext and not uses_type:
       ctx.check(guarded, "TYPE", f"{g.qualname}|the extension is used only when no explicit type is given", ctx.where(g.module, r), f"dominated by `{tparam} is None`",
                 "the file extension is consulted even when --itype/--otype is given: the explicit type no longer wins")
       strip = [s for s in own_nodes(g.node) if isinstance(s, ast.Assign) and unparse(s.targets[0]) == eparam and isinstance(s.value, ast.Subscript) and
-               unparse(s.value.slice).replace(" ", "") in ("1:", f"1:len({eparam})")]
+               unparse(s.value.slice).replace(" ", "") in ("1:", f"1:len({eparam})", "1:None")]
       dot = [s for s in own_nodes(g.node) if isinstance(s, ast.Compare) and unparse(s).replace('"', "'") == f"{eparam}[0] == '.'"]
       ctx.check(len(strip) == 1 and len(dot) == 1, "TYPE", f"{g.qualname}|exactly the leading dot of the extension is removed", ctx.where(g.module, r), f"`{eparam}[0] == '.'` then `{eparam}[1:]`",
                 "the leading `.` of the file extension is not removed exactly (os.path.splitext returns `.srt`)")
